@@ -2182,10 +2182,30 @@ fn boundary_lengths(em: &mut Emitter, thorough: bool) {
     };
     let mut lens = vec![15usize, 16, 17, 31, 32, 63, 64, 65, 127, 128, 129, 192, 255, 256, 257];
     if thorough {
-        lens.extend([511, 512, 513, 1000, 1023, 1024, 1025, 4096]);
+        lens.extend([511, 512, 513, 1000]);
     }
     for len in lens {
         emit(em, "table", &base(false, len, 1, vec![]));
+    }
+    // the next powers of two (chunked / yielding replays): light cases, an order on every 97th
+    // event of an instrument at most
+    let mut big = vec![1024usize, 1025, 2049];
+    if thorough {
+        big.extend([1023, 1026, 2048, 4096, 4097, 8193]);
+    }
+    for len in big {
+        let mut sc = base(false, len, 1, vec![]);
+        sc.params[0].k = 97;
+        sc.params[0].m = 193;
+        emit(em, "table", &sc);
+    }
+    {
+        let mut sc = base(false, 1025, 2, vec![2]);
+        for p in sc.params.iter_mut() {
+            p.k = 97;
+            p.m = 193;
+        }
+        emit(em, "table", &sc);
     }
     emit(em, "table", &base(false, 128, 3, vec![2, 8]));
     emit(em, "table", &base(true, 128, 2, vec![8]));
